@@ -58,6 +58,9 @@ def gen_cases(tier, seed):
     for (mode, wt) in ((None, "uhf"), ("reverse", "uhf"), ("2rdm", "rhf")) if q else ((None, "uhf"), (None, "rhf"), ("reverse", "uhf"), ("reverse", "rhf"), ("2rdm", "rhf"), ("2rdm", "uhf")):
         cases.append({"type": "driver", "rot": True, "do_sr": True, "wt": wt, "ad_mode": mode, "s": int(rng.integers(1 << 30)),
                       "group": "drv-%s-%s" % (mode, wt), "cost": 70})
+    # reproducibility "for a given seed" through the documented option handling (mpi_jax._prep_afqmc), including the seed value 0
+    for rep in range(1 if q else 4):
+        cases.append({"type": "seedopt", "wt": "uhf" if rep % 2 == 0 else "rhf", "s": int(rng.integers(1 << 30)), "group": "seedopt-%d" % rep, "cost": 40})
     for wt in (("uhf",) if q else ("rhf", "uhf")):
         cases.append({"type": "repro", "wt": wt, "entry": "plain", "s": int(rng.integers(1 << 30)), "group": "rep-%s" % wt, "cost": 40})
         cases.append({"type": "batch", "wt": wt, "entry": str(rng.choice(["plain", "ad_nosr"])), "s": int(rng.integers(1 << 30)), "group": "bat-%s" % wt, "cost": 50})
@@ -514,7 +517,68 @@ def call_entry_obs(entry, smp, S, hd, wd, pd, obs, coupling=0.0):
     return fn(S["ham"], hd, coupling, obs, S["prop"], pd, S["trial"], wd)
 
 
+def run_seedopt(case):
+    """options -> mpi_jax._prep_afqmc -> driver.afqmc: the seed the user gives (0 included) is the seed that is used, and two runs with
+    it give bit-identical samples whatever the state of NumPy's global generator"""
+    import contextlib
+    import io
+    import os
+    import shutil
+    import tempfile
+
+    import h5py
+
+    from ad_afqmc import config, driver, mpi_jax
+
+    rng = np.random.default_rng(case["s"])
+    wt = case["wt"]
+    S = build(wt, rng, 4, 0.02)
+    norb = S["norb"]
+    na, nb = S["nelec"]
+    hd = S["ham_data"]
+    chol = np.asarray(hd["chol"]).reshape(-1, norb, norb)
+    Cs = S["Cs"] if wt != "rhf" else [S["Cs"], S["Cs"]]
+    mo = np.zeros((2, norb, norb))
+    for s_ in range(2):
+        c_occ = np.asarray(Cs[s_])
+        full = np.linalg.qr(np.hstack([c_occ, np.random.default_rng(5 + s_).normal(size=(norb, norb - c_occ.shape[1]))]))[0]
+        full[:, : c_occ.shape[1]] = c_occ
+        mo[s_] = full
+    cwd0 = os.getcwd()
+    tmp = tempfile.mkdtemp(prefix="verif_c12seed_")
+    os.chdir(tmp)
+    events = []
+    key = "C12/seed-option/%s" % wt
+    try:
+        with h5py.File("FCIDUMP_chol", "w") as fh:
+            fh["header"] = np.array([na + nb, norb, na - nb, chol.shape[0]], dtype=np.int64)
+            fh["hcore"] = np.asarray(hd["h1"])[0].flatten()
+            fh["chol"] = chol.flatten()
+            fh["energy_core"] = np.array([float(np.asarray(hd["h0"]))])
+        np.savez("mo_coeff.npz", mo_coeff=mo)
+        runs = {}
+        for seed in (0, 0, 5, 5):
+            opts = {"dt": 0.02, "n_walkers": 4, "n_prop_steps": 2, "n_ene_blocks": 1, "n_sr_blocks": 2, "n_blocks": 3, "n_ene_blocks_eql": 1, "n_sr_blocks_eql": 1,
+                    "n_eql": 1, "seed": seed, "walker_type": wt, "trial": "rhf" if wt == "rhf" else "uhf"}
+            np.random.seed(int(rng.integers(1 << 30)))   # the global NumPy state must be irrelevant once a seed is given
+            with contextlib.redirect_stdout(io.StringIO()):
+                hd_, ham_, prop_, trial_, wd_, smp_, obs_, opt_, _mpi = mpi_jax._prep_afqmc(dict(opts))
+                events.append(ev("seed-option/seed-kept", bool(opt_["seed"] == seed), key=key + "/seed-kept", given=seed, used=int(opt_["seed"])))
+                driver.afqmc(hd_, ham_, prop_, trial_, wd_, smp_, obs_, opt_, config.not_MPI())
+            runs.setdefault(seed, []).append(np.loadtxt("samples_raw.dat").reshape(-1, 3))
+        for seed, (a_, b_) in runs.items():
+            events.append(ev("seed-option/bit-reproducible", bool(np.array_equal(a_, b_)), key=key + "/bit-reproducible", seed=seed,
+                             max_diff=float(np.max(np.abs(a_ - b_)))))
+        events.append(ev("seed-option/different-seeds-differ", bool(not np.array_equal(runs[0][0], runs[5][0])), key=key + "/seeds-differ"))
+    finally:
+        os.chdir(cwd0)
+        shutil.rmtree(tmp, ignore_errors=True)
+    return {"events": events, "nontrivial": True, "sample": {"wt": wt, "block_energies_seed0": runs[0][0][:, 1].tolist()}, "counters": {"seed_option_runs": 4}}
+
+
 def run_case(case):
+    if case["type"] == "seedopt":
+        return run_seedopt(case)
     if case["type"] == "driver":
         return run_driver(case)
     if case["type"] == "replay":
